@@ -6,6 +6,7 @@
 #
 #############################################################################
 from pathlib import Path
+from typing import ClassVar
 import urllib.parse
 
 from dashlive.drm.playready import PlayReady
@@ -157,7 +158,9 @@ class InitSegment(DashElement):
                 break
         msg = 'Failed to find MOOV box in this init segment'
         if not self.elt.check_not_none(moov, msg=msg):
-            self.logging.error(msg)
+            self.log.error(msg)
+            return None
+        if not self.check_mandatory_boxes(moov):
             return None
         self.validate_moov(moov)
         pssh = moov.find_child('pssh')
@@ -175,6 +178,36 @@ class InitSegment(DashElement):
                 self.elt.check_true(
                     'moov' not in self.url, None, None,
                     'PSSH box should be present in an encrypted stream')
+
+    # boxes that ISO/IEC 14496-12 makes mandatory in the movie box of a
+    # fragmented file (alternatives separated by |)
+    MANDATORY_BOXES: ClassVar[list[str]] = [
+        'mvhd', 'mvex', 'mvex.trex', 'trak', 'trak.tkhd', 'trak.mdia',
+        'trak.mdia.mdhd', 'trak.mdia.hdlr', 'trak.mdia.minf',
+        'trak.mdia.minf.dinf', 'trak.mdia.minf.stbl',
+        'trak.mdia.minf.stbl.stsd', 'trak.mdia.minf.stbl.stts',
+        'trak.mdia.minf.stbl.stsc', 'trak.mdia.minf.stbl.stsz|stz2',
+        'trak.mdia.minf.stbl.stco|co64',
+    ]
+
+    def check_mandatory_boxes(self, moov: mp4.Mp4Atom) -> bool:
+        result = True
+        for path in self.MANDATORY_BOXES:
+            atom: mp4.Mp4Atom | None = moov
+            for name in path.split('.'):
+                child = None
+                for ch in (atom.children or []):
+                    if ch.atom_type in name.split('|'):
+                        child = ch
+                        break
+                atom = child
+                if atom is None:
+                    break
+            if not self.elt.check_not_none(
+                    atom, msg=f'Mandatory box moov.{path} is missing from the init segment',
+                    clause='ISO/IEC 14496-12'):
+                result = False
+        return result
 
     def validate_moov(self, moov: mp4.Mp4Atom) -> None:
         dash_rep = self.dash_rep
